@@ -222,3 +222,74 @@ def r3(cx):
         else:
             cx.violation(gk, "bypass-forwards-options", "%s: the bypass does not forward the caller's location and options unchanged" % b.sp(c), [b.sp(c)])
     cx.floor("bypass calls in get_opts", len(byp), 1, gk)
+
+
+INV = "query::cache::TieredCache::invalidate"
+
+
+def _is_l2_discr(body, bi):
+    """block bi switches on the discriminant of a place ending in the `.l2` field; returns the non-Some edges"""
+    t = body.blocks[bi]["term"]
+    if t["k"] != "switch" or t.get("enum") != "std::option::Option":
+        return None
+    d = t["discr"].get("pl", {}).get("l")
+    for si, st in enumerate(body.blocks[bi]["stmts"]):
+        rv = st.get("rv") or {}
+        if st.get("lhs", {}).get("l") == d and rv.get("k") == "discr":
+            # the tested Option is self.l2, directly or through as_ref / as_deref / a copy of it
+            o = M.provenance(body, rv["pl"], at=(bi, si))
+            if M.has_field(o, None, ".l2") and not any(x[0] == "call" for x in o):
+                edges = set()
+                for nme, tg in zip(t["variants"], t["targets"]):
+                    if nme != "Some":
+                        edges.add((bi, tg))
+                if "Some" in (t["variants"] or []) and t.get("otherwise") is not None:
+                    edges.add((bi, t["otherwise"]))
+                return edges
+    return None
+
+
+@rule("C16", "R4", "invalidation reaches every tier: every return of TieredCache::invalidate is dominated by the (awaited) L1 removal of the key and either by the "
+      "L2 removal of the key or by the `l2 is None` edge - no early exit can leave the key in the disk tier")
+def r4(cx):
+    ck, b = cx.need_body(INV)
+    if b is None:
+        return
+    def keyed(bi):
+        o = M.operand_origins(b, b.term(bi)["args"][1], at=(bi, M.T))
+        return any(x[0] in ("upvar", "arg") and "key" in str(x[1]) for x in o) and not any(x[0] == "call" for x in o)
+    l1 = [bi for bi, t in b.calls() if re.search(r"moka::future::Cache::<.*>::(invalidate|remove)$", t["callee"])]
+    l1poll = [bi for bi, t in b.calls() if t["callee"].endswith("Future::poll") and re.search(r"moka::future::Cache::<.*>::(invalidate|remove)::\{closure#0\}$", t.get("resolved") or "")]
+    l2 = [bi for bi, t in b.calls() if re.search(r"HybridCache::<.*>::remove$", t["callee"])]
+    if not (cx.floor("L1 removal in TieredCache::invalidate", len(l1), 1, ck) and cx.floor("L1 removal awaited", len(l1poll), 1, ck)
+            and cx.floor("L2 removal in TieredCache::invalidate", len(l2), 1, ck)):
+        return
+    for bi in l1 + l2:
+        if keyed(bi):
+            cx.passed(ck, "removes-the-key:%s" % ("l1" if bi in l1 else "l2"), [b.sp(bi)])
+        else:
+            cx.violation(ck, "removes-the-key:%s" % ("l1" if bi in l1 else "l2"), "%s: the tier entry removed is not the one of the key being invalidated" % b.sp(bi), [b.sp(bi)])
+    rets = [bi for bi, blk in enumerate(b.blocks) if blk["term"]["k"] == "return" and not blk.get("cleanup")]
+    cx.floor("returns of TieredCache::invalidate", len(rets), 1, ck)
+    ready = set()
+    for p in l1poll:
+        tg = b.term(p).get("target")
+        if tg is not None:
+            ready.add((p, tg))
+    l2edges = set()
+    for bi in range(len(b.blocks)):
+        e = _is_l2_discr(b, bi)
+        if e:
+            l2edges |= e
+    for x in l2:
+        tg = b.term(x).get("target")
+        if tg is not None:
+            l2edges.add((x, tg))
+    for r in rets:
+        ok1 = b.dominated_by_edges(r, ready)
+        ok2 = b.dominated_by_edges(r, l2edges)
+        if ok1 and ok2:
+            cx.passed(ck, "every-tier-before-return", [b.sp(r)])
+        else:
+            cx.violation(ck, "every-tier-before-return", "%s: invalidate can return without removing the key from %s: after delete / rename a read is still answered from the stale entry "
+                         "(e.g. the key was evicted from L1 but lives on in L2)" % (b.sp(r), "L1" if not ok1 else "the L2 tier"), [b.sp(r)])
